@@ -19,6 +19,10 @@ ASYNC = ["port_status", "echo_request", "packet_in", "error", "echo_reply", "err
 BAD_XID = 0x7ffffff0                                                # never drawn by the counter in a run of this size
 
 
+class ListenerQuit(BaseException):
+    """what a listener with the outcome "raise_base" raises (not an Exception)"""
+
+
 class Sock:
     """scripted socket of one switch connection"""
     def __init__(self, world, idx):
@@ -98,7 +102,9 @@ class World:
             self.sel = self.gen.send((r, w, e))
         except StopIteration:
             self.dead_task = "task loop ended"; return
-        except Exception as ex:                                      # an exception that escapes the task loop kills the controller's I/O
+        except (KeyboardInterrupt, SystemExit):
+            raise
+        except BaseException as ex:                                  # an exception that escapes the task loop kills the controller's I/O
             self.dead_task = "task loop died: " + type(ex).__name__; return
         now = [s for s in self.sel._args[0] if s is not self.L]
         for c in self.selected:
@@ -128,6 +134,9 @@ class World:
             cls = getattr(self.chk.of_01, name)
             if cls in con._eventMixin_events:
                 con.addListener(cls, self.chk.recorder("con", name), priority=1000000)
+                sp = self.chk.beh.get(("con", name))
+                if sp is not None:
+                    con.addListener(cls, self.chk.beh_listener("con", name, sp), priority=-10, once=sp in self.chk.ONCE_SPELLINGS)
         unp = list(con.unpackers)
         def wrap(u, ty):
             def f(raw, offset=0):
@@ -181,7 +190,7 @@ class World:
                 self.gen.send(([], [], []))
             except StopIteration:
                 pass
-            except Exception:
+            except (Exception, ListenerQuit):
                 pass
             finally:
                 core.running = True
@@ -205,9 +214,9 @@ class C09(Check):
     lean_targets = ["drv_c09"]
     driver = "drv_c09"
     _T = ["up_once", "up_raised", "down_once", "registry_exact_partial", "registry_exact_no_overlap", "early_ps_partial", "close_only_when_lost",
-          "up_once_listeners", "down_once_listeners"]
+          "up_once_listeners", "down_once_listeners", "down_once_halting", "up_once_halting"]
     theorems = ["Pox.C09." + t for t in _T] + ["Pox.C09." + t + "_v" for t in _T] + ["Pox.C09." + t for t in [
-        "listeners_none_is_model", "registry_exact_full_defect", "early_ps_full_defect", "registry_samedpid_needed_defect",
+        "listeners_none_is_model", "halting_keeps", "registry_exact_full_defect", "early_ps_full_defect", "registry_samedpid_needed_defect",
         "up_listener_disconnects_regression", "d3_defect", "down_without_up_defect", "dispatch_after_disconnect_defect", "error_closes_defect"]]
     # name-based anchors, resolved on the tree under test by common.AnchorCoverage (robust to line shifts)
     anchors = [('pox/openflow/of_01.py', n) for n in ['DefaultOpenFlowHandlers.handle_STATS_REPLY', 'DefaultOpenFlowHandlers.handle_PORT_STATUS', 'DefaultOpenFlowHandlers.handle_PACKET_IN', 'DefaultOpenFlowHandlers.handle_ERROR', 'DefaultOpenFlowHandlers.handle_BARRIER_REPLY', 'DefaultOpenFlowHandlers.handle_HELLO', 'DefaultOpenFlowHandlers.handle_ECHO_REQUEST', 'DefaultOpenFlowHandlers.handle_FEATURES_REPLY', 'HandshakeOpenFlowHandlers.handle_BARRIER_REPLY', 'HandshakeOpenFlowHandlers.handle_ERROR', 'HandshakeOpenFlowHandlers.handle_HELLO', 'HandshakeOpenFlowHandlers.handle_ECHO_REQUEST', 'HandshakeOpenFlowHandlers.handle_STATS_REPLY', 'HandshakeOpenFlowHandlers.handle_FEATURES_REPLY', 'HandshakeOpenFlowHandlers.handle_PORT_STATUS', 'HandshakeOpenFlowHandlers._finish_connecting', 'Connection.close', 'Connection.disconnect', 'Connection.send', 'handle_OFPST_DESC', 'OpenFlow_01_Task.run']] + \
@@ -232,20 +241,28 @@ class C09(Check):
                   "Re-entrant listeners (a ConnectionUp listener that sends / calls sendToDPID / disconnects, a ConnectionDown listener that calls sendToDPID): "
                   "up_once_listeners, down_once_listeners are proved over the listener model runL for every such behaviour (at most one Up / Down per connection and "
                   "level, no Down without nexus-level Up, no Up after a Down, and with C09-6 in place no Down in the step that raises the connection-level Up); the "
-                  "registry and early-port-status statements are NOT proved with listeners (tested and model-compared only). Regression witnesses for every committed "
+                  "registry and early-port-status statements are NOT proved with listeners (tested and model-compared only). Listeners that HALT events or unsubscribe "
+                  "(Model/ConnH.lean: one arbitrary outcome per event kind for the last nexus-level listener; halting = a filter on each step's outputs): down_once_halting "
+                  "(whatever they do, ConnectionDown at most once per connection on the nexus AND on the connection, only for an announced connection, exactly once on BOTH "
+                  "levels for an announced connection the task has closed: a nexus-level halt of ConnectionDown does not take it from the Connection's listeners), "
+                  "up_once_halting (with re-entrant listeners too: at most one Up / Down per connection and level), halting_keeps (halting never changes a nexus-level "
+                  "event, a ConnectionDown, a write, a registration, a sendToDPID result or a close; it only removes connection-level events of the other kinds; "
+                  "listeners that never halt change nothing). Regression witnesses for every committed "
                   "repair are kept on the models of the reverted code.")
     level_note = ("Trusted: Lean kernel, axioms propext/Classical.choice/Quot.sound, the hand-written model Model/Conn.lean (tied to the code only by this "
                   "correspondence run), the harness (scripted sockets, fake listener, recording listeners, unpacker wrapper). Assumed, not proved: event listeners "
-                  "do not re-enter the connection (no halt, no disconnect/send from inside a handler); default OpenFlowConnectionArbiter; xid counter does not wrap; "
+                  "do not re-enter the connection (the base theorems; re-entrant and halting listeners have their own, weaker theorems); default OpenFlowConnectionArbiter; xid counter does not wrap; "
                   "every ofp_error carries data; framing (C02) and the deferred sender (C20) are out of scope.")
     trusted_base = ["harness/c09.py detect_variant: whether the tree has the repairs C09-5 / C09-6 is decided by probing the real code on two witness histories (source shape = cross-check only, never aborts); the driver evaluates the model at that variant and the correspondence validates the choice",
-                    "model Model/Conn.lean (+ Model/ConnL.lean for re-entrant listeners) hand-written from of_01.py / openflow/__init__.py; tied by this correspondence run",
+                    "model Model/Conn.lean (+ Model/ConnL.lean for re-entrant listeners, Model/ConnH.lean for halting listeners) hand-written from of_01.py / openflow/__init__.py; tied by this correspondence run",
                     "harness: real OpenFlow_01_Task.run generator driven by hand (fake listener socket, scripted connection sockets), recording listeners, `_connect` wrapper"]
     assumptions = ["the base theorems (up_once, up_raised, down_once, registry_exact_partial, early_ps_partial, close_only_when_lost) assume listeners that do not re-enter the "
                    "connection (no halt / disconnect / send inside a handler); for listeners that do (nexus-level ConnectionUp listeners that send, call sendToDPID or disconnect; "
                    "ConnectionDown listeners that call sendToDPID(event.dpid)) up_once_listeners / down_once_listeners are proved over Model/ConnL.lean `runL` (which provably equals "
-                   "the base model without such listeners: listeners_none_is_model), and everything else is tested and model-compared only; listeners that halt an event, or "
-                   "listeners on the connection level / on other events, are not covered at all",
+                   "the base model without such listeners: listeners_none_is_model), and everything else is tested and model-compared only; for nexus-level listeners that halt "
+                   "an event or unsubscribe (every event kind) down_once_halting / up_once_halting / halting_keeps are proved over Model/ConnH.lean `outsH`, the halting listener "
+                   "being the LAST one on the nexus; listeners on the Connection object are modelled as having no effect (the correspondence run checks that, for every "
+                   "spelling of halt / unsubscribe / raise); a halting listener that also re-enters the controller is not covered",
                    "the default OpenFlowConnectionArbiter (nexus = core.openflow); miss_send_len and clear_flows_on_connect at their defaults",
                    "fewer than 2^31 xids drawn per run; every ofp_error message carries data; a read() delivers whole messages (framing is C02)",
                    "on a tree with the commit of C09-5 reverted (variant v = false, detected by probing) registry_exact_partial_v assumes each connection's features replies name one datapath id; on the tree as it stands it is unconditional"]
@@ -254,7 +271,7 @@ class C09(Check):
             "x {eof, select error, disconnect(), send error} x {alone, beside a live connection of the same datapath} x 2 batchings, every interleaving of the 4 handshake "
             "messages (both finishing variants) with <= 2 insertions of {port_status, echo_request, packet_in, error(other xid), error(other code)}, all 24 orders of the 4 "
             "handshake messages with <= 1 insertion, every connect/up/lose order of 2 connections; generated = sampled 3-insertion interleavings and 3-connection orders "
-            "(exhaustive in the thorough tier) + seeded random histories (30% with neighbouring reads / EOFs / accepts merged into ONE select round); + all 70 interleavings of two connections' handshakes (x same/different datapath x both finishing variants), 22 hand-written multi-event select rounds (error list + readable list, both orders, accept next to data, the new connection's barrier reply next to the stale one's EOF), the API called positionally / by keyword / with a message object, and the hand-written + sampled interleaved / round histories again behind a prelude that burns 260 xids (every xid above 256); + ~690 of the hand-written / loss-point / 2-connection histories re-run with re-entrant application listeners (7 listener behaviours; compared with the listener model runL); + the error sweep: at each of the 3 positions between hello and the barrier answer an ERROR of every (type, code) (3x3 in the quick corpus, 6x9 in the thorough tier) with xid in {0, the barrier's, the features request's, barrier+-1, 2^31-1, 2^32-1}, and every other kind of message (echo request / reply, packet-in, port status, desc stats reply, hello, barrier replies with those xids), followed by the real barrier reply; loss kinds now include an exception leaving read() (a message of a type nothing can unpack); + ~700 hand-written / interleaved histories run with NO nexus-level listener for some event kinds (raiseEvent returns None) or with a nexus listener that halts them; non-trivial = at least one message was dispatched")
+            "(exhaustive in the thorough tier) + seeded random histories (30% with neighbouring reads / EOFs / accepts merged into ONE select round); + all 70 interleavings of two connections' handshakes (x same/different datapath x both finishing variants), 22 hand-written multi-event select rounds (error list + readable list, both orders, accept next to data, the new connection's barrier reply next to the stale one's EOF), the API called positionally / by keyword / with a message object, and the hand-written + sampled interleaved / round histories again behind a prelude that burns 260 xids (every xid above 256); + ~690 of the hand-written / loss-point / 2-connection histories re-run with re-entrant application listeners (7 listener behaviours; compared with the listener model runL); + the error sweep: at each of the 3 positions between hello and the barrier answer an ERROR of every (type, code) (3x3 in the quick corpus, 6x9 in the thorough tier) with xid in {0, the barrier's, the features request's, barrier+-1, 2^31-1, 2^32-1}, and every other kind of message (echo request / reply, packet-in, port status, desc stats reply, hello, barrier replies with those xids), followed by the real barrier reply; loss kinds now include an exception leaving read() (a message of a type nothing can unpack); + ~700 hand-written / interleaved histories run with NO nexus-level listener for some event kinds (raiseEvent returns None) or with a nexus listener that halts them; + ~2500 hand-written / loss-point / 2-connection / select-round histories run with a LAST listener on the nexus or on every Connection that halts / unsubscribes / raises on a lifecycle event (ConnectionUp, ConnectionDown: all 14 spellings — EventHalt, True, (), event.halt, EventHaltAndRemove, once=True, EventRemove, False, EventContinue, Exception, BaseException, ReventError — x both levels x every hand-written history; the other kinds and combinations in rotation; a third together with re-entrant listeners), a quarter of the generated histories likewise (nexus-level outcomes are model-compared through Model/ConnH.lean, connection-level ones must change nothing); non-trivial = at least one message was dispatched")
 
     def setup(self):
         self.core = poxenv.boot()
@@ -268,10 +285,9 @@ class C09(Check):
             nexus.addListener(getattr(of_01, name), self.recorder("nexus", name), priority=1000000)   # records the moment of the raise
         # case["mute"]: event kinds that have NO listener on the nexus during the case (raiseEvent then returns None);
         # case["halt"]: kinds for which an application listener on the nexus halts the event (the connection-level raise is then skipped)
-        self.halted = set()
-        from pox.lib.revent import EventHalt
-        for name in self.QUIET_KINDS:
-            nexus.addListener(getattr(of_01, name), (lambda n: lambda ev: EventHalt if n in chk.halted and chk.sink[0] is not None else None)(name))
+        # case["beh"]: {"nexus": {event kind: spelling}, "con": {event kind: spelling}} = what the LAST listener of that kind on that level does with
+        # the event (halt it / unsubscribe / raise ...: BEH_SPELLINGS); installed per case by install_beh, after the recorders
+        self._beh_eids = []
         # re-entrant application listeners (run after the recorders); what they do is part of the case: case["listeners"]
         self.listeners = {}
         nexus.addListener(of_01.ConnectionUp, self.app_listener("up"))
@@ -370,6 +386,56 @@ class C09(Check):
             self._muted_saved[cls] = nexus._eventMixin_handlers.get(cls, [])
             nexus._eventMixin_handlers[cls] = []
 
+    # every spelling of a listener outcome (revent.raiseEvent) -> what the model makes of it when the listener is on the nexus
+    BEH_SPELLINGS = {"none": "cont", "continue": "cont", "raise": "cont", "raise_base": "cont", "raise_revent": "cont",
+                     "halt": "halt", "true": "halt", "sethalt": "halt", "empty": "halt",
+                     "haltremove": "haltremove", "once_halt": "haltremove", "remove": "remove", "false": "remove", "once": "remove"}
+    ONCE_SPELLINGS = ("once", "once_halt")
+    HALTING = ("halt", "haltremove")
+
+    def beh_of(self, case):
+        """(level, event kind) -> spelling; the old `halt: [kinds]` = a nexus listener answering EventHalt; a nexus-level listener of a muted kind
+        does not exist (mute = the nexus has no listener at all for that kind)"""
+        out = {}
+        for name in case.get("halt") or []: out[("nexus", name)] = "halt"
+        for level, tab in sorted((case.get("beh") or {}).items()):
+            for name, sp in sorted(tab.items()): out[(level, name)] = sp
+        for name in case.get("mute") or []: out.pop(("nexus", name), None)
+        return out
+
+    def beh_listener(self, level, name, sp):
+        chk = self
+        import pox.lib.revent as revent
+        def h(ev):
+            w = chk.sink[0]
+            if w is None: return
+            w.log.append(["beh", level, name, w.idx(ev.connection), ev.ofp.xid if name in TAGGED else 0, sp])
+            if sp == "continue": return revent.EventContinue
+            if sp == "raise": raise RuntimeError("listener of %s fails" % name)
+            if sp == "raise_base": raise ListenerQuit()
+            if sp == "raise_revent": raise revent.ReventError("listener of %s fails" % name)
+            if sp in ("halt", "once_halt"): return revent.EventHalt
+            if sp == "true": return True
+            if sp == "sethalt": ev.halt = True; return None
+            if sp == "empty": return ()
+            if sp == "haltremove": return revent.EventHaltAndRemove
+            if sp == "remove": return revent.EventRemove
+            if sp == "false": return False
+            return None                                              # "none", "once"
+        return h
+
+    def install_beh(self, case):
+        self.beh = self.beh_of(case)
+        nexus = self.core.openflow
+        for (level, name), sp in sorted(self.beh.items()):
+            if level == "nexus":
+                self._beh_eids.append(nexus.addListener(getattr(self.of_01, name), self.beh_listener("nexus", name, sp), priority=-10,
+                                                        once=sp in self.ONCE_SPELLINGS))
+
+    def remove_beh(self):
+        for eid in self._beh_eids: self.core.openflow.removeListener(eid)
+        self._beh_eids = []; self.beh = {}
+
     def app_listener(self, which):
         """an application's nexus-level ConnectionUp / ConnectionDown handler that re-enters the controller:
         "send" = con.send(...), "sendto" = core.openflow.sendToDPID(event.dpid, ...), "disc" = con.disconnect()"""
@@ -462,10 +528,11 @@ class C09(Check):
                         for m in it.get("msgs", []): self.msg_bytes(m, 0)
             if op["op"] == "sendto" and op.get("obj"):
                 o = self.of.ofp_barrier_request(); o.xid = op["x"]; self._objs[op["x"]] = o
+        self.remove_beh(); self.set_muted([])                        # (nothing left over from a case that ended in an exception)
         w = World(self)
         self.listeners = dict(case.get("listeners") or {})
-        self.halted = set(case.get("halt") or [])
         self.set_muted(case.get("mute") or [])
+        self.install_beh(case)                                       # (the connection-level ones are attached at accept time)
         steps, resolved, regs, states = [], [], [], []
         for op in case["ops"]:
             mark = len(w.log)
@@ -510,20 +577,26 @@ class C09(Check):
                 resolved.append({"op": "disc", "c": op["c"]})
                 if op["c"] < len(w.cons):                             # the three ways a component may call it
                     how = op.get("how", 0)
-                    if how == 1: w.cons[op["c"]].disconnect("dropped by the application")
-                    elif how == 2: w.cons[op["c"]].disconnect(msg="dropped by the application", defer_event=False)
-                    else: w.cons[op["c"]].disconnect()
+                    try:
+                        if how == 1: w.cons[op["c"]].disconnect("dropped by the application")
+                        elif how == 2: w.cons[op["c"]].disconnect(msg="dropped by the application", defer_event=False)
+                        else: w.cons[op["c"]].disconnect()
+                    except (Exception, ListenerQuit) as ex:           # (a listener's failure reaching the caller: an observable like any other)
+                        w.log.append(["raised", type(ex).__name__])
             elif k == "sockfail":
                 resolved.append({"op": "sockfail", "c": op["c"]})
                 if op["c"] < len(w.cons): w.socks[op["c"]].broken = True
             elif k == "sendto":
                 resolved.append({"op": "sendto", "d": op["d"], "x": op["x"]})
-                if op.get("obj"):                                     # a message object instead of bytes (built before the run: see msg_objs)
-                    ret = w.nexus.sendToDPID(op["d"], self._objs[op["x"]])
-                else:
-                    ret = w.nexus.sendToDPID(dpid=op["d"], data=hdr(T_BARRIER_REQ, 8, op["x"])) if op.get("kw") else \
-                          w.nexus.sendToDPID(op["d"], hdr(T_BARRIER_REQ, 8, op["x"]))
-                w.log.append(["ret", bool(ret)])
+                try:
+                    if op.get("obj"):                                 # a message object instead of bytes (built before the run: see msg_objs)
+                        ret = w.nexus.sendToDPID(op["d"], self._objs[op["x"]])
+                    else:
+                        ret = w.nexus.sendToDPID(dpid=op["d"], data=hdr(T_BARRIER_REQ, 8, op["x"])) if op.get("kw") else \
+                              w.nexus.sendToDPID(op["d"], hdr(T_BARRIER_REQ, 8, op["x"]))
+                    w.log.append(["ret", bool(ret)])
+                except (Exception, ListenerQuit) as ex:
+                    w.log.append(["raised", type(ex).__name__])
             else:
                 raise KeyError(k)
             steps.append([e for e in w.log[mark:]])
@@ -531,7 +604,7 @@ class C09(Check):
             if w.dead_task: break
         nx = self.of.generate_xid()
         w.finish()
-        self.listeners = {}; self.halted = set(); self.set_muted([])
+        self.listeners = {}; self.remove_beh(); self.set_muted([])
         return {"steps": steps, "resolved": resolved, "regs": regs, "states": states, "dead_task": w.dead_task,
                 "next_xid": nx, "nsteps": [self.nsteps(op) for op in case["ops"]]}
 
@@ -565,13 +638,16 @@ class C09(Check):
                "cfg": {"d3": True, "down": True, "read": True, "err": True, "dpid": self.variant["dpid"]}}
         ls = case.get("listeners")
         if ls: req["listeners"] = {"up": ls.get("up"), "down": ls.get("down"), "stop": self.variant["stop"]}
+        # nexus-level listeners that halt / unsubscribe: the model applies them (Model/ConnH.lean); connection-level ones are `other` to the model
+        halting = {name: self.BEH_SPELLINGS[sp] for (level, name), sp in self.beh_of(case).items() if level == "nexus" and self.BEH_SPELLINGS[sp] != "cont"}
+        if halting: req["halting"] = halting
         if os.environ.get("VERIF_C09_CFG") == "old": req["cfg"] = self.OLD_CFG      # manual use only: the unrepaired model against an unrepaired tree
         return req
 
     def impl_view(self, case, obs):
         if obs.get("dead_task"): return {"dead_task": obs["dead_task"]}
         final = obs["regs"][-1] if obs["regs"] else []
-        return {"steps": [self.round_norm(op, [e for e in st if e[0] not in ("in", "hsendto")]) for op, st in zip(case["ops"], obs["steps"])],
+        return {"steps": [self.round_norm(op, [e for e in st if e[0] not in ("in", "hsendto", "beh")]) for op, st in zip(case["ops"], obs["steps"])],
                 "reg": [[d, dict((k, v) for k, v in final if k is not None).get(d)] for d in self.dpids_of(case)],
                 "regnone": dict((str(k), v) for k, v in final).get("None"),
                 "conns": obs["states"][-1] if obs["states"] else [], "next_xid": obs["next_xid"]}
@@ -583,8 +659,8 @@ class C09(Check):
             n = self.nsteps(op)
             grp = []
             for _ in range(n): grp += next(it)
-            mute, halt = set(case.get("mute") or []), set(case.get("halt") or [])
-            grp = [e for e in grp if not (e[0] == "nexus" and e[1] in mute) and not (e[0] == "con" and e[1] in halt)]
+            mute = set(case.get("mute") or [])
+            grp = [e for e in grp if not (e[0] == "nexus" and e[1] in mute)]
             steps.append(self.round_norm(op, grp))
         return {"steps": steps, "reg": resp["reg"], "regnone": resp["regnone"], "conns": resp["conns"], "next_xid": resp["next_xid"]}
 
@@ -901,9 +977,47 @@ class C09(Check):
                 c2 = dict(c); c2.update(q); c2["tag"] = c.get("tag", "") + "/quiet"
                 yield c2
 
+    LIFECYCLE = ["ConnectionUp", "ConnectionDown", "ConnectionHandshakeComplete", "FeaturesReceived", "PortStatus"]
+
+    def with_beh(self, case, beh, tag="/beh"):
+        c = dict(case); c["beh"] = beh; c["tag"] = case.get("tag", "") + tag
+        return c
+
+    def halting_cases(self):
+        """histories run with a LAST listener, on the nexus or on every Connection, that halts / unsubscribes / raises (every spelling of every
+        outcome) on a lifecycle event: ConnectionUp and ConnectionDown with every spelling on either level over every hand-written history; the other
+        kinds, combinations over both levels, and the loss-point / two-connection / select-round histories in rotation; a third of them together
+        with re-entrant application listeners.  Nexus-level outcomes are model-compared (Model/ConnH.lean); connection-level ones must change nothing."""
+        sp = sorted(self.BEH_SPELLINGS)
+        singles = [{lv: {k: x}} for k in ("ConnectionDown", "ConnectionUp") for lv in ("nexus", "con") for x in sp]
+        others = [{lv: {k: x}} for k in self.LIFECYCLE[2:] + ["PacketIn", "ErrorIn", "BarrierIn", "RawStatsReply", "SwitchDescReceived"] for lv in ("nexus", "con") for x in sp]
+        combos = [{"nexus": {k: x for k in self.LIFECYCLE}} for x in ("halt", "haltremove", "raise", "remove", "sethalt", "true")] + \
+                 [{"con": {k: x for k in self.LIFECYCLE}} for x in ("halt", "haltremove", "raise_base", "false")] + \
+                 [{"nexus": {k: x for k in EVENTS}, "con": {k: y for k in EVENTS}} for x, y in (("halt", "halt"), ("haltremove", "raise"), ("raise", "haltremove"),
+                                                                                                ("once_halt", "once_halt"), ("empty", "remove"))] + \
+                 [{"nexus": {"ConnectionUp": "halt", "ConnectionDown": "halt"}}, {"nexus": {"ConnectionUp": "haltremove", "ConnectionDown": "once_halt"}},
+                  {"nexus": {"ConnectionDown": "halt"}, "con": {"ConnectionDown": "halt"}}, {"nexus": {"ConnectionDown": "raise"}, "con": {"ConnectionDown": "raise"}},
+                  {"nexus": {"ConnectionUp": "raise", "PortStatus": "haltremove"}, "con": {"ConnectionUp": "halt"}}]
+        specials = list(self.specials())
+        for j, c in enumerate(specials):
+            for t, b in enumerate(singles):
+                yield self.with_beh(c, b) if (j + t) % 4 else self.remap(self.with_beh(c, b), self.DPID_MAPS[(j + t) % 3])
+            for t, b in enumerate(others):
+                if (j + t) % 6 == 0: yield self.with_beh(c, b)
+            for t, b in enumerate(combos): yield self.with_beh(c, b)
+        wide = list(self.loss_points())[::3] + list(self.orders(2, [(5, 5), (5, 6)], [("eof", "err"), ("disc", "senderr")])) + list(self.rounds()) + \
+               list(self.interleaved_handshakes())[::9]
+        pool = singles + combos + others[::5]
+        lsn = list(self.LISTENERS) + [{"up": "disc"}, {"up": "disc", "down": "sendto"}]
+        for j, c in enumerate(wide):
+            for t in range(2):
+                c2 = self.with_beh(c, pool[(7 * j + 13 * t) % len(pool)])
+                if (j + t) % 3 == 0: c2 = self.with_listeners(c2, lsn[(j + t) % len(lsn)])
+                yield c2
+
     def corpus(self):
         cases = list(self._corpus())
-        return cases + list(self.listener_cases()) + list(self.quiet_cases())
+        return cases + list(self.listener_cases()) + list(self.quiet_cases()) + list(self.halting_cases())
 
     def _corpus(self):
         cases = list(self.specials())
@@ -972,7 +1086,15 @@ class C09(Check):
             if c.get("tag", "").startswith("random") and rng.random() < 0.3: c = self.merge_rounds(c, rng)
             if c.get("tag", "").startswith("random") and rng.random() < 0.15:
                 c = self.with_listeners(c, self.LISTENERS[rng.randrange(len(self.LISTENERS))])
+            if rng.random() < 0.25: c = self.with_beh(c, self.random_beh(rng))
             yield c
+
+    def random_beh(self, rng):
+        sp, beh = sorted(self.BEH_SPELLINGS), {}
+        for _ in range(rng.choice([1, 1, 2, 3, 5])):
+            k = rng.choice(self.LIFECYCLE + self.LIFECYCLE[:2] + EVENTS)
+            beh.setdefault(rng.choice(["nexus", "nexus", "con"]), {})[k] = rng.choice(sp)
+        return beh
 
     def _generate(self, rng, tier):
         if tier == "thorough":
@@ -994,8 +1116,11 @@ class C09(Check):
         for mp in self.DPID_MAPS:
             for c in self.specials(): yield self.remap(c, mp)
         for c in self.loss_points(): yield c
+        for i, c in enumerate(self.halting_cases()):
+            if i % 5 == 0: yield c
         while True:
             c = self.random_case(rng, big=True)
+            if rng.random() < 0.3: c = self.with_beh(c, self.random_beh(rng))
             yield self.remap(c, self.DPID_MAPS[rng.randrange(3)]) if rng.random() < 0.5 else c
 
     # ------------------------------------------------------------------ the property itself, on the implementation's observables
@@ -1012,6 +1137,9 @@ class C09(Check):
         ps_window_start = {}
         failed_connect = set()
         exists = lambda j, c: c < len(obs["states"][j])              # the connection had been accepted when operation j ran
+        # what the last nexus-level listener did with an event (log entry "beh", written when it fires): ConnectionUp halted for these connections;
+        # per connection, the nexus-level PortStatus deliveries in order with whether each was halted
+        up_halted, ps_nexus = set(), {i: [] for i in range(ncon)}
         disc_by, broken_by, d_, b_ = [], [], set(), set()
         for j, o in enumerate(ops):
             if o["op"] == "disc" and exists(j, o["c"]): d_ = d_ | {o["c"]}
@@ -1053,6 +1181,12 @@ class C09(Check):
                 elif name == "PortStatus":
                     if ("nexus", i) not in up_at: return "early_ps:before-up PortStatus raised for connection %d before its ConnectionUp" % i
                     ps_ev[i][tag].append(arg)
+                    if tag == "nexus": ps_nexus[i].append([arg, False])
+            elif tag == "beh":
+                level, name, i, arg, sp = e[1:]
+                if level == "nexus" and self.BEH_SPELLINGS[sp] in self.HALTING:
+                    if name == "ConnectionUp": up_halted.add(i)
+                    if name == "PortStatus" and ps_nexus.get(i) and ps_nexus[i][-1][0] == arg: ps_nexus[i][-1][1] = True
             elif tag == "hsendto":
                 which, i, d, x, ret, exp, exp_ok = e[1:]
                 if ret != (exp is not None):
@@ -1076,19 +1210,38 @@ class C09(Check):
         for i in range(len(final)):
             announced = ("nexus", i) in up_at
             skipped = announced and ("con", i) not in up_at          # legitimate only if the connection was dropped during the nexus-level raise
-            if skipped and not obs["states"][log[up_at[("nexus", i)]][0]][i]["disc"]:
+            k_up = log[up_at[("nexus", i)]][0] if announced else None                        # (by a re-entrant listener: it disconnects, or its send fails),
+            act = (case.get("listeners") or {}).get("up")                                     # or if a nexus-level listener halted the announcement
+            dropped = announced and act is not None and (act == "disc" or i in broken_by[k_up]) and obs["states"][k_up][i]["disc"]
+            if skipped and not dropped and i not in up_halted:
                 return "up:nexus-con-mismatch connection %d announced on the nexus but not on the connection" % i
+            # ConnectionDown is owed to the listeners on BOTH levels of an announced connection that is lost — whatever a listener on the
+            # nexus made of it (Connection.disconnect does not look at the nexus-level result)
             lost = final[i]["closed"] or (disc_by and i in disc_by[-1])
             if announced and lost and (("nexus", i) not in down_at or ("con", i) not in down_at):
-                return "down:missing connection %d was announced and is lost but no ConnectionDown was raised" % i
+                return "down:missing connection %d was announced and is lost but no ConnectionDown was raised%s" % (
+                    i, "" if ("nexus", i) not in down_at and ("con", i) not in down_at else " on the %s" % ("nexus" if ("nexus", i) not in down_at else "connection"))
             if announced:
-                want = [] if skipped else ps_in[i][ps_window_start.get(i, 0):]
-                for where in ("nexus", "con"):
-                    if (where == "nexus" and "PortStatus" in (case.get("mute") or [])) or (where == "con" and "PortStatus" in (case.get("halt") or [])):
-                        if ps_ev[i][where]: return "early_ps:raised-where-nobody-listens PortStatus on %s for connection %d" % (where, i)
-                        continue
-                    if ps_ev[i][where] != want:
-                        return "early_ps:lost-or-reordered connection %d: port-status raised on %s %s, received since the features reply %s" % (i, where, ps_ev[i][where], want)
+                # a connection dropped during the announcement gets nothing more (C09-6; on a tree without it: iff the announcement did stop there)
+                quiet = dropped and (self.variant["stop"] or (skipped and i not in up_halted))
+                want = [] if quiet else ps_in[i][ps_window_start.get(i, 0):]
+                if "PortStatus" in (case.get("mute") or []):          # nobody listens on the nexus (so nothing is recorded or halted there)
+                    if ps_ev[i]["nexus"]: return "early_ps:raised-where-nobody-listens PortStatus on nexus for connection %d" % i
+                    if ps_ev[i]["con"] != want:
+                        return "early_ps:lost-or-reordered connection %d: port-status raised on con %s, received since the features reply %s" % (i, ps_ev[i]["con"], want)
+                    continue
+                if ps_ev[i]["nexus"] != want:
+                    return "early_ps:lost-or-reordered connection %d: port-status raised on nexus %s, received since the features reply %s" % (i, ps_ev[i]["nexus"], want)
+                # on the connection: every delivery no nexus-level listener halted, in order; a halted one may be left out (it is, today)
+                got, need = ps_ev[i]["con"], [x for x, h in ps_nexus[i] if not h]
+                if got != need:
+                    p = 0
+                    for x, h in ps_nexus[i]:
+                        if p < len(got) and got[p] == x: p += 1
+                        elif not h: p = -1; break
+                    if p != len(got):
+                        return "early_ps:lost-or-reordered connection %d: port-status raised on con %s, received since the features reply %s (halted on the nexus: %s)" % (
+                            i, got, want, [x for x, h in ps_nexus[i] if h])
         # ---- registry after every operation
         up_op = {}
         for (tag, i), pos in up_at.items():
@@ -1149,6 +1302,13 @@ class C09(Check):
 
     def shrink_candidates(self, case):
         ops = case["ops"]
+        for key in ("listeners", "mute", "halt"):
+            if case.get(key):
+                c = dict(case); c.pop(key); yield c
+        for lv, tab in sorted((case.get("beh") or {}).items()):
+            for k in sorted(tab):
+                b = {l: {n: x for n, x in t.items() if (l, n) != (lv, k)} for l, t in case["beh"].items()}
+                c = dict(case); c["beh"] = {l: t for l, t in b.items() if t}; yield c
         for i in range(len(ops)):
             c = dict(case); c["ops"] = ops[:i] + ops[i + 1:]; yield c
         for i, o in enumerate(ops):
